@@ -133,6 +133,12 @@ def section(kind, n, body="ctx", src="git"):
         lines = [b"diff --git a/" + f + b" b/" + g, b"index 1111111..2222222 100644",
                  b"Binary files a/" + f + b" and b/" + g + b" differ"]
         info.update(event="binary", binary=True, has_hunk=False, hunk_lines=[], new=g)
+    elif kind == "binary_noindex_dirs":
+        # the same for two directory trees (`git diff --no-index old new`): the paths carry the directory names
+        # instead of git's prefixes
+        lines = [b"diff --git old/" + f + b" new/" + g, b"index 1111111..2222222 100644",
+                 b"Binary files old/" + f + b" and new/" + g + b" differ"]
+        info.update(event="binary", binary=True, has_hunk=False, hunk_lines=[], old=b"old/" + f, new=b"new/" + g)
     elif kind == "commit":
         # not a file section: the next commit of `git log -p` / concatenated `git show` outputs, directly
         # after the previous file (no blank line in between)
